@@ -36,9 +36,20 @@ DT = Opaque('dtype')
 class ND(object):
     """n-d array of symbolic entries: data[(i, j, ...)]."""
 
-    def __init__(self, shape, data):
+    def __init__(self, shape, data, layout='C'):
         self.shape = tuple(shape)
         self.data = dict(data)
+        # memory layout of the value array: 'C' or 'F' (what flattening in
+        # memory order - ravel(order='K' / 'A'), .flat of a view - sees)
+        self.layout = layout
+
+    def flat(self, order='C'):
+        if order in ('K', 'A'):
+            order = self.layout
+        idxs = list(itertools.product(*[range(n) for n in self.shape]))
+        if order == 'F':
+            idxs.sort(key=lambda t: tuple(reversed(t)))
+        return [self.data[i] for i in idxs]
 
     def get(self, idx):
         for i, n in zip(idx, self.shape):
@@ -183,6 +194,18 @@ class IH(NumpyHooks):
                 return obj.shape
             if name == 'dtype':
                 return DT
+            if name in ('ravel', 'flatten'):
+                return Builtin(name, lambda order='C': SArr(obj.flat(order)))
+            if name == 'flags':
+                c = obj.layout == 'C' or len(obj.shape) < 2
+                f = obj.layout == 'F' or len(obj.shape) < 2
+                return Rec('flags', c_contiguous=c, f_contiguous=f,
+                           contiguous=c, forc=c or f)
+            if name == 'size':
+                n = 1
+                for k in obj.shape:
+                    n *= k
+                return n
         if isinstance(obj, SArr):
             if name == 'dtype':
                 return DT
@@ -230,6 +253,45 @@ class IH(NumpyHooks):
                     return SArr([p if b else q
                                  for b, p, q in zip(m, xs, ys)])
                 return Builtin('np.where', where)
+            if name == 'ravel':
+                return Builtin('np.ravel', lambda v, order='C': SArr(
+                    v.flat(order)) if isinstance(v, ND) else v)
+            if name == 'ravel_multi_index':
+                def rmi(idx, shape, mode='raise', order='C'):
+                    idx = [i.items if isinstance(i, SArr) else [i]
+                           for i in idx]
+                    shape = [int(to_rat(n).constant()) for n in shape]
+                    out = []
+                    for tup in zip(*idx):
+                        if not all(isinstance(t, int) for t in tup):
+                            raise Undecided('symbolic multi index')
+                        if any(not 0 <= t < n for t, n in zip(tup, shape)):
+                            raise PyRaise('ValueError')
+                        dims = list(zip(tup, shape))
+                        if order == 'F':
+                            dims.reverse()
+                        k = 0
+                        for t, n in dims:
+                            k = k * n + t
+                        out.append(k)
+                    return SArr(out)
+                return Builtin('np.ravel_multi_index', rmi)
+            if name == 'take':
+                def take(a, ind, axis=None, out=None, mode='raise'):
+                    if isinstance(a, ND):
+                        a = SArr(a.flat('C'))
+                    if axis is not None or not isinstance(a, SArr):
+                        raise Undecided('np.take with axis')
+                    ii = ind.items if isinstance(ind, SArr) else [ind]
+                    if any(not isinstance(i, int) or not -len(a.items) <= i <
+                           len(a.items) for i in ii):
+                        raise PyRaise('IndexError')
+                    res = [a.items[i] for i in ii]
+                    if out is not None:
+                        out.items[:] = res
+                        return out
+                    return SArr(res) if isinstance(ind, SArr) else res[0]
+                return Builtin('np.take', take)
             if name in ('asarray', 'array'):
                 def asarr(v, *a, **k):
                     if isinstance(v, (list, tuple)) and v and all(
@@ -337,11 +399,11 @@ class IInterp(Interp):
         return Interp.cmp1(self, op, l, r, node)
 
 
-def values_nd(ndim):
+def values_nd(ndim, layout='C'):
     data = {}
     for idx in itertools.product(range(NN), repeat=ndim):
         data[idx] = Rat.var('v' + ''.join(str(i) for i in idx))
-    return ND((NN,) * ndim, data)
+    return ND((NN,) * ndim, data, layout)
 
 
 def expected(axes, schemes, vals):
@@ -519,6 +581,8 @@ class KH(Hooks):
                 return (NN,)
             if name == 'size':
                 return NN
+            if name in ('ravel', 'flatten'):
+                return Builtin(name, lambda *a, **k: KArr(obj.dt, obj.frac))
             if name == 'astype':
                 def astype(dt, casting='unsafe', **k):
                     d2 = as_np_dt(dt)
@@ -570,6 +634,19 @@ class KH(Hooks):
                 return Builtin('np.where', where)
             if name == 'copy':
                 return Builtin('np.copy', lambda a, **k: KArr(a.dt, a.frac))
+            if name == 'ravel':
+                return Builtin('np.ravel', lambda a, **k: KArr(a.dt, a.frac))
+            if name == 'ravel_multi_index':
+                return Builtin('np.ravel_multi_index',
+                               lambda *a, **k: KArr('intp'))
+            if name == 'take':
+                def take(a, ind, axis=None, out=None, mode='raise'):
+                    if out is not None:
+                        if not _rnp.can_cast(a.dt, out.dt, 'same_kind'):
+                            raise PyRaise('TypeError')
+                        return out
+                    return KArr(a.dt, a.frac)
+                return Builtin('np.take', take)
             if name in ('zeros', 'empty', 'ones'):
                 def mk(shape, *a, **k):
                     dt = k.get('dtype', a[0] if a else None)
@@ -853,9 +930,12 @@ def check(ctx):
             raise AnalysisError('anchor vanished: %s' % nm)
     thorough = ctx.tier == 'thorough'
 
-    def compare(rule, how, sch, cs_tuple, with_out=False):
-        key = '%s[%s]%s' % (how, ','.join(sch), ':out' if with_out else '')
-        for ct, res in run_split(model, how, sch, cs_tuple, with_out):
+    def compare(rule, how, sch, cs_tuple, with_out=False, layout='C'):
+        key = '%s[%s]%s%s' % (how, ','.join(sch), ':out' if with_out else '',
+                              '' if layout == 'C' else ':values in Fortran '
+                              'order')
+        for ct, res in run_split(model, how, sch, cs_tuple, with_out,
+                                 values_nd(len(cs_tuple), layout)):
             cname = ' x '.join(c.name for c in ct)
             if isinstance(res, PyRaise):
                 return key, 'raises %s on case %s' % (res.name, cname)
@@ -869,12 +949,12 @@ def check(ctx):
                     % (cname, got, want)
         return key, None
 
-    def sweep(rule, configs, case_tuples, with_out=False):
+    def sweep(rule, configs, case_tuples, with_out=False, layout='C'):
         n = 0
         for how, sch in configs:
             bad = []
             for ct in case_tuples:
-                key, msg = compare(rule, how, sch, ct, with_out)
+                key, msg = compare(rule, how, sch, ct, with_out, layout)
                 n += 1
                 if msg:
                     bad.append(msg)
@@ -938,6 +1018,14 @@ def check(ctx):
     n2 = sweep('R1b', schemes_nd(2), c2)
     rep.floor('R1b', '2-d evaluations', n2, 6 * 169)
 
+    # ---- R1L the same with the value array in Fortran memory order -----------
+    red2 = list(itertools.product(reduced_cases(), repeat=2))
+    cfgL = schemes_nd(2) + [('_NearestInterpolator', ('nearest',) * 2),
+                            ('_LinearInterpolator', ('linear',) * 2)]
+    nL = sweep('R1L', cfgL, red2, layout='F')
+    nL += sweep('R1L', cfgL, red2, with_out=True, layout='F')
+    rep.floor('R1L', '2-d evaluations on Fortran-ordered values', nL, 100)
+
     # ---- R1c three axes -------------------------------------------------------
     red = reduced_cases()
     c3 = list(itertools.product(red, repeat=3))
@@ -984,12 +1072,16 @@ def check(ctx):
                      ('_PerAxisInterpolator', ('linear',))]:
         for vdt, via in itertools.product(VALUE_DTYPES, ('class',
                                                          'factory')):
-            if via == 'class':
-                r = kind_run(model, cls, sch, vdt)
-                key = '%s[%s]:%s' % (cls, sch[0], vdt)
-            else:
-                r = kind_run_factory(model, cls, sch, vdt)
-                key = '%s[%s]:%s' % (FACTORY_OF[cls], sch[0], vdt)
+            key = '%s[%s]:%s' % (cls if via == 'class' else FACTORY_OF[cls],
+                                 sch[0], vdt)
+            try:
+                if via == 'class':
+                    r = kind_run(model, cls, sch, vdt)
+                else:
+                    r = kind_run_factory(model, cls, sch, vdt)
+            except Undecided as e:
+                rep.undecided('R5', key, str(e), DU)
+                continue
             n5 += 1
             if r[0] == 'raise':
                 rep.violation('R5', key, 'out-of-place evaluation raises %s '
